@@ -147,14 +147,31 @@ func (monC18) TaskEnd(s *Sim, t *Task) {
 	if c := statusWriteSwallowed(t, KSetting); c != nil {
 		s.Violate("C18", "verdict-not-stored", "", "%s: the write of its verdict failed (%v) but the reconcile reported success and no requeue: the setting counts as reconciled with a stale status", t.Label(), c.Err)
 	}
-	nodeListFailed := false
-	var write *Call
+	nodeListFailed, settingListFailed := false, false
+	var write, read *Call
 	for _, c := range t.Calls {
 		if c.Verb == "list" && c.Kind == KNode && c.Err != nil {
 			nodeListFailed = true
 		}
+		if c.Verb == "list" && c.Kind == KSetting && c.Err != nil {
+			settingListFailed = true
+		}
+		if c.Verb == "get" && c.Kind == KSetting && c.Err == nil && read == nil {
+			read = c
+		}
 		if c.Verb == "updatestatus" && c.Kind == KSetting {
 			write = c
+		}
+	}
+	if settingListFailed && read != nil && write != nil && write.Applied() && write.Out != nil {
+		// the other settings could not be listed: no conflict check was made, so a setting that was not
+		// valid before must not come out valid
+		var pre, post edsv1.ExtendedDaemonsetSetting
+		decodeInto(read.Out, &pre)
+		decodeInto(write.Out, &post)
+		s.Stats.NonVacuous["C18.setting-list-failed"]++
+		if pre.Status.Status != edsv1.ExtendedDaemonsetSettingStatusValid && post.Status.Status == edsv1.ExtendedDaemonsetSettingStatusValid {
+			s.Violate("C18", "unchecked-valid", "settings-list", "%s could not list the settings of the namespace but turned the setting from %q to valid", t.Label(), pre.Status.Status)
 		}
 	}
 	if !nodeListFailed {
